@@ -850,7 +850,9 @@ func (d *DotGit) ObjectsWithPrefix(prefix []byte) ([]plumbing.Hash, error) {
 				return bytes.Compare(d.objectList[i].Bytes(), limPrefix) >= 0
 			})
 		}
-		return d.objectList[first:lim], nil
+		// Copy: callers append to the result, which must not overwrite
+		// the cached list.
+		return append([]plumbing.Hash(nil), d.objectList[first:lim]...), nil
 	}
 
 	// This is the slow path.
